@@ -2,11 +2,13 @@ use crate::engine::PropDef;
 
 pub mod c01;
 pub mod c02;
+pub mod c03;
 pub mod c04;
 pub mod c05;
 pub mod c06;
 pub mod c28;
+pub mod c42;
 
 pub fn all() -> Vec<PropDef> {
-    vec![c01::def(), c02::def(), c04::def(), c05::def(), c06::def(), c28::def()]
+    vec![c01::def(), c02::def(), c03::def(), c04::def(), c05::def(), c06::def(), c28::def(), c42::def()]
 }
